@@ -7,16 +7,28 @@
 (* instructions tagged with the phase they stand in                        *)
 (*     def  TYPE NAME = SHAPE(refs)      (a definition)                    *)
 (*     use  CONTEXT(refs)                (an instruction that refers)      *)
-(* A SHAPE is the form of a value with its reference slots (s.two is the   *)
-(* string  @[X]@-@[Y]@ ,  p.relcomp the path  -rel X @[Y]@ , ...); every   *)
-(* slot of a shape or context carries the restriction its position puts on *)
-(* the referenced symbol:                                                  *)
+(* A SHAPE is the form of a value with its reference slots; shapes are     *)
+(* named TYPE-LETTER.FORM (s string, l list, p path, m text-matcher,       *)
+(* t text-transformer, g program, n line-matcher, i integer-matcher,       *)
+(* c files-condition, f file-matcher, k files-matcher, o files-source,     *)
+(* x text-source), for instance                                            *)
+(*     s.lit  a           s.ref  @[X]@        s.pre  p@[X]@                *)
+(*     s.two  @[X]@-@[Y]@                                                  *)
+(*     l.lit  a 'a x'     l.litref  e @[X]@   l.instr  "<@[X]@>"           *)
+(*     l.two  @[X]@ @[Y]@                                                  *)
+(*     p.lit  -rel-tmp a  p.comp  -rel-tmp @[X]@   p.rel  -rel X a         *)
+(*     p.pre  @[X]@/a     p.relcomp  -rel X @[Y]@                          *)
+(*     m.eq   equals "@[X]@"   m.or  X || Y   t.seq  X | Y                 *)
+(*     i.int  == "len('@[X]@')"    g.ref  @ X a    o.name  { file @[X]@ }  *)
+(* (harness/props/c08.py has the whole table, and that of the contexts).   *)
+(* Every slot of a shape or context carries the restriction its position   *)
+(* puts on the referenced symbol:                                          *)
 (*     data    string, list or path (a reference inside a string, a list   *)
 (*             element, a program argument)                                *)
 (*     strict  a string made up of just strings, TRANSITIVELY (a path      *)
-(*             component, an INTEGER expression, the name of an            *)
-(*             environment variable, the name of a % program, a file name  *)
-(*             in a FILE-LIST)                                             *)
+(*             component, an INTEGER expression, a line-number range, the  *)
+(*             name of an environment variable, the name of a % program, a *)
+(*             file name in a FILE-LIST or a FILES-CONDITION)              *)
 (*     path    a path (-rel SYMBOL)                                        *)
 (*     pos     a path, or a string made up of just strings (a FILE-NAME    *)
 (*             that begins with @[SYMBOL]@)                                *)
@@ -37,18 +49,27 @@
 (* property are stated over the program TEXT (Before, Culprits,            *)
 (* Violations) and tie the two together.                                   *)
 (*                                                                         *)
-(* Values.  A string is a sequence of atoms (one-character literals, <TAB>, *)
-(* the markers <tmp> <act> for the absolute sandbox directories); a list a *)
-(* sequence of strings; a path [root, comps]; matchers are subsets of the  *)
-(* four probe lines a b c d (integer-matchers: of their line numbers);     *)
-(* text-transformers partial functions on these lines; a program the       *)
-(* arguments it has accumulated; a files-source the names of its files; a  *)
-(* text-source its text; files-conditions, file- and files-matchers are    *)
-(* opaque (only their types matter here).                                  *)
+(* Values.  A string is a sequence of atoms (one-character literals, the   *)
+(* builtin <TAB>, the markers <tmp> <act> for the absolute sandbox         *)
+(* directories); a list a sequence of strings; a path [root, comps];       *)
+(* matchers are subsets of the four probe lines a b c d (integer-matchers: *)
+(* of their line numbers); text-transformers partial functions on these    *)
+(* lines; a program the arguments it has accumulated; a files-source the   *)
+(* names of its files; a text-source its text; files-conditions, file- and *)
+(* files-matchers are opaque (only their types matter here).               *)
 (*                                                                         *)
 (* Path symbols only use the relativities act, tmp and the current         *)
 (* directory (= act: there is no cd), which every path context used here   *)
 (* accepts: relativity restrictions are C12's subject.                     *)
+(*                                                                         *)
+(* Families of programs (variable fam, see Layout): order2/3/4 - any       *)
+(* sequence of def-literal / def-by-reference / use over two names, every  *)
+(* instruction in any phase, any file order; dupb - a definition of a      *)
+(* builtin name; direct, bdirect, link1, blink - a literal (or a builtin), *)
+(* optionally one definition on top of it, used in every context; link2 -  *)
+(* two literals below a two-reference shape; chain2/3 - chains of          *)
+(* one-reference definitions; rand - random simulation, any shape over     *)
+(* everything defined so far.                                              *)
 (*                                                                         *)
 (* Deviations (never switched on when the property is checked; they show   *)
 (* that the invariants are sharp): "FirstRefOnly" - the transitive check   *)
@@ -73,7 +94,6 @@ CONSTANTS Fams,           \* families of programs explored (see Layout)
           Deviations
 
 \* ---- vocabulary -----------------------------------------------------------------------------
-PhaseSeq == <<"setup", "act", "before-assert", "assert", "cleanup">>
 Rank(p) == CASE p = "setup" -> 1 [] p = "act" -> 2 [] p = "before-assert" -> 3 [] p = "assert" -> 4
              [] p = "cleanup" -> 5 [] OTHER -> 9
 Names    == <<"A", "B", "C", "D">>
